@@ -73,6 +73,24 @@ theorem cdcFinish_of_inv (st : CdcState) (data : List UInt8) (h : CdcInv st data
     unfold cdcFinish cdcSpec
     rw [if_pos (by omega)]
 
+/-- Pigeonhole: a duplicate-free list of naturals below `n` has at most `n` elements. -/
+theorem nodup_bounded_length (n : Nat) (l : List Nat) (hnd : l.Nodup) (hlt : ∀ x ∈ l, x < n) : l.length ≤ n := by
+  induction n generalizing l with
+  | zero =>
+    cases l with
+    | nil => simp
+    | cons a _ => exact absurd (hlt a List.mem_cons_self) (Nat.not_lt_zero _)
+  | succ n ih =>
+    have h1 : (l.erase n).length ≤ n := by
+      apply ih _ (hnd.erase n)
+      intro x hx
+      have hx' := (hnd.mem_erase_iff).mp hx
+      have := hlt x hx'.2
+      omega
+    have h2 : l.length ≤ (l.erase n).length + 1 := by
+      rw [List.length_erase]; split <;> omega
+    omega
+
 /-! ### the pk-index table -/
 
 theorem mem_wirePairs (wire : List Nat) (j : Nat) (p : PkIndex) (hb : j + wire.length ≤ 65536)
